@@ -294,6 +294,29 @@ fn one_case(seed: u64, i: u64, rep: &mut Report) {
         let w = refimpl::vmess::seal_request_header(&other, &hdr, &aid, &rng.arr());
         cx.must_not_relay("vmess-valid-authid-foreign-header-key", "", &w, &[]);
     }
+    // (6) the credential of ANOTHER inbound of the same process: a second deployment of the same protocol and cipher (own
+    // key / password / user table) is brought up first and used - its context built, a request of its own accepted by
+    // its own decoder, as a second entry of the configuration file would - then a request that is valid THERE is
+    // presented HERE. Whatever the process keeps per protocol rather than per inbound shows up as an item.
+    for n_other in [0usize, 2] {
+        let other = Cfg::random(&mut rng, proto, n_other);
+        let vopt = *rng.pick(&refimpl::vmess::VALID_OPTION_MASKS);
+        let used_there = (|| {
+            let sh = real::server_shared(&other).ok()?;
+            let mut dec = real::server_codec(&other, &sh).ok()?;
+            let mut c = RefClient::new(&other, &target, &mut rng, now, ClientOpts { vmess_option: vopt, ..Default::default() });
+            let mut b = BytesMut::from(&c.write(&payload, &mut rng)[..]);
+            Some(!drain_server(dec.as_mut(), &mut b, true).items.is_empty())
+        })();
+        if used_there != Some(true) {
+            cx.rep.inconclusive("the second inbound of the process did not accept its own client");
+            continue;
+        }
+        cx.rep.mon("second_inbounds_brought_up_in_the_process", 1);
+        let mut c = RefClient::new(&other, &target, &mut rng, now, ClientOpts { vmess_option: vopt, ..Default::default() });
+        let w = c.write(&payload, &mut rng);
+        cx.must_not_relay("credential-of-another-inbound-of-this-process", &format!("users_there={n_other}"), &w, &[]);
+    }
     // user separation
     user_separation(&mut cx, &mut rng, now);
 }
